@@ -3,6 +3,18 @@ import itertools
 
 from common import standard_prologue, run_hx, run_drv, enc, dec
 
+CLAIM = {
+    "technique": "Lean 4 theorems about a model of Golden::new/assert (world = file x env var) + exhaustive cross-product correspondence against the real okane_golden crate",
+    "text": ("Proof: the golden helper is modelled as pure functions over a world (file content, UPDATE_GOLDEN value at "
+             "new-time and at assert-time); theorems C20_compare / C20_readonly / C20_missing / C20_update / C20_env state the "
+             "property for all contents, all `got` strings and all environment values. The model is tied to golden/src/lib.rs "
+             "by running the real crate in a scratch directory on the full cross product of file states x got strings x "
+             "environment states and diffing verdict, file bytes and mtime against the model; the property's statement is "
+             "also evaluated directly on the real code's behaviour."),
+    "note": "std::fs / std::env behaviour, UTF-8 decoding and the success of fs::write are modelled, not verified.",
+    "design_ref": "DESIGN.md section 6, C20",
+}
+
 THEOREMS = ["Okane.Golden.C20_env", "Okane.Golden.C20_compare", "Okane.Golden.C20_readonly",
             "Okane.Golden.C20_missing", "Okane.Golden.C20_update", "Okane.Golden.C20_update_missing",
             "Okane.Golden.crlfToLf_no_crlf_id"]
